@@ -303,6 +303,47 @@ pub fn depth_ladder(full: bool) -> Vec<(Program, Vec<V>)> {
     out
 }
 
+/// ConstLadder: constants whose content reads as code (lists headed by 1 = q, 2 = a, 4 = c, 5 = f ..) in the places where
+/// the optimisers meet them already folded: under a single first / rest next to something that is not constant, as the
+/// branches of a condition, as the body of a function, inside an argument list that a function takes apart.
+pub fn const_ladder() -> Vec<(Program, Vec<V>)> {
+    use crate::ast::{Expr, Helper, Pat};
+    let v = |n: &str| Expr::Var(n.to_string());
+    let pv = |n: &str| Pat::Var(n.to_string());
+    let i = |n: i64| V::int(n);
+    let zoo: Vec<V> = vec![
+        V::list(&[i(1), i(2), i(3)]), V::list(&[i(1)]), V::cons(i(1), i(5)), V::list(&[i(2), i(2), i(3)]), V::list(&[i(4), i(1), i(2)]),
+        V::list(&[i(5), V::list(&[i(4), i(1), i(2)])]), V::list(&[V::list(&[i(1)]), i(1)]), V::list(&[i(9), i(9)]), V::list(&[i(1), V::list(&[i(1), i(2)])]),
+    ];
+    let mut out = vec![];
+    for d in zoo {
+        for shape in 0..8usize {
+            let mut helpers = vec![];
+            let body = match shape {
+                0 => Expr::Prim(4, vec![v("P1"), Expr::Prim(6, vec![Expr::Lit(V::cons(i(5), d.clone()))])]),
+                1 => Expr::Prim(4, vec![v("P1"), Expr::Prim(5, vec![Expr::Lit(V::cons(d.clone(), i(7)))])]),
+                2 | 3 => {
+                    helpers.push(Helper::DefConstant { name: "LC".into(), value: d.clone() });
+                    helpers.push(Helper::DefConstant { name: "MC".into(), value: i(7) });
+                    if shape == 2 { Expr::If(Box::new(v("P1")), Box::new(v("LC")), Box::new(v("MC"))) } else { Expr::Prim(3, vec![v("P1"), v("LC"), v("MC")]) }
+                }
+                4 | 5 => {
+                    helpers.push(Helper::Defun { name: "kst".into(), pat: Pat::Nil, body: Expr::Lit(d.clone()), inline: shape == 5 });
+                    helpers.push(Helper::Defun { name: "kst2".into(), pat: Pat::Nil, body: Expr::Lit(i(7)), inline: shape == 5 });
+                    Expr::Prim(3, vec![v("P1"), Expr::Call("kst".into(), vec![], None), Expr::Call("kst2".into(), vec![], None)])
+                }
+                _ => {
+                    helpers.push(Helper::Defun { name: "apart".into(), pat: Pat::list(vec![Pat::list(vec![pv("A"), pv("B")], Pat::Nil), pv("C")], Pat::Nil),
+                        body: Expr::Prim(4, vec![v("A"), Expr::Prim(4, vec![v("B"), v("C")])]), inline: shape == 7 });
+                    Expr::Call("apart".into(), vec![Expr::List(vec![Expr::Lit(d.clone()), v("P1")]), Expr::Lit(i(5))], None)
+                }
+            };
+            out.push((Program { args: Pat::list(vec![pv("P1")], Pat::Nil), helpers, body }, vec![V::list(&[V::int(100)]), V::list(&[V::nil()])]));
+        }
+    }
+    out
+}
+
 pub fn gen_opts(profile: &str) -> GenOpts {
     match profile {
         "core" => GenOpts::core(),
@@ -448,6 +489,7 @@ pub fn drive(args: &HashMap<String, String>) {
         progs.extend(use_ladder(false));
         progs.extend(rest_and_assign_ladders());
         progs.extend(at_ladder());
+        progs.extend(const_ladder());
         // (TLC's JSON reader stops at 255 levels of nesting: two per addition)
         progs.extend(depth_ladder(n >= 100).into_iter().filter(|(p, _)| crate::util::json_depth(&p.to_json()) < 240));
     }
